@@ -1,4 +1,5 @@
 import SifVerif.Proofs.Load
+import SifVerif.Proofs.LoadRanges
 /-!
 # C10 — hostile or corrupt input is rejected safely
 
@@ -151,6 +152,13 @@ theorem C10_loaded_safe (st : Store) (s : Img) (h : loadContainer st = .ok s) :
               simp only [hu, Bool.true_and, Bool.not_eq_eq_eq_not, Bool.not_true, Bool.or_eq_false_iff,
                 decide_eq_false_iff_not] at this
               omega
+
+/-- whatever the loader accepts — any bytes at all — yields a handle all of whose numbers are
+    representable in their Go types and whose byte-array fields have their fixed lengths: nothing
+    downstream (arithmetic on offsets and sizes, the encoders that write the table back) meets a
+    value the type cannot hold -/
+theorem C10_loaded_ranges (st : Store) (s : Img) (h : loadContainer st = .ok s) : Ranges s :=
+  loadContainer_ranges st s h
 
 /-- **C10, object reads**: reading an object yields at most its declared size and at most the
     bytes the input holds -/
